@@ -112,6 +112,7 @@ type State struct {
 	ghostI    map[*ssa.BasicBlock]*Term
 	lastCall  map[string][]Value // bare callee name -> results of its most recent call on this path (lasterr)
 	lastArgs  map[string][]Value // same for the arguments (receiver first)
+	locked    []*Loc             // mutexes on which this call invoked Lock/RLock (lock-balance obligation at every return)
 	trace     []string
 	dead      bool
 }
@@ -165,6 +166,7 @@ func (s *State) clone() *State {
 			n.lastCall[k] = v
 		}
 	}
+	n.locked = append([]*Loc{}, s.locked...)
 	if s.lastArgs != nil {
 		n.lastArgs = make(map[string][]Value, len(s.lastArgs))
 		for k, v := range s.lastArgs {
